@@ -379,6 +379,22 @@ pub fn hostile_call(seed: u64, index: u64) -> Call {
             v.insert(at, encode(coarse));
             Call::Uncompact(v, target)
         }
+        11 if rng.chance(0.15) => {
+            // the coarsest cells in every order: the world cell and its marker-less aliases, base cells, quintants - expanded to the
+            // coarsest targets (the layout regimes of resolutions -1, 0 and 1 meet here, and the order of the list must not matter)
+            let n = 1 + rng.below(5) as usize;
+            let mut v = Vec::new();
+            for _ in 0..n {
+                v.push(match rng.below(5) {
+                    0 => 0,
+                    1 => gen::hostile_id(rng, "worldalias"),
+                    2 => encode(MCell::new(0, rng.below(12) as u8, 0, 0)),
+                    3 => encode(MCell::new(1, rng.below(12) as u8, rng.below(5) as u8, 0)),
+                    _ => encode(gen::random_cell(rng, 2)),
+                });
+            }
+            Call::Uncompact(v, rng.below(5) as i32 - 1)
+        }
         11 => {
             let mut res = gen::hostile_res(rng);
             let n = 1 + rng.below(6) as usize;
